@@ -398,6 +398,222 @@ func genTokenTables(repo, out string) {
 	write(out, "TokenTables.lean", b.String())
 }
 
+// ---------------------------------------------------------------------------------------------
+// Request pipeline skeletons (C02, C11): for handleRequest / handleLoginRequest, the ordered list of top-level
+// statements that matter, each with its tags:
+//   CheckToken   the statement calls c.CheckToken
+//   UseToken     the statement calls UseToken
+//   CtErrGuard   `if ctErr != nil { … return }` (every path through the body returns)
+//   AuditGuard   every path through the statement either returns or passes a LogRequest whose error returns
+//   Route        the statement calls doRoutingIfApproved / doRouting / router.Route outside a func literal
+// plus whether the function contains goto/labels (which would invalidate the straight-line reading).
+
+func callsName(n ast.Node, names ...string) bool {
+	found := false
+	ast.Inspect(n, func(x ast.Node) bool {
+		if _, ok := x.(*ast.FuncLit); ok {
+			return false
+		}
+		if c, ok := x.(*ast.CallExpr); ok {
+			var nm string
+			switch f := c.Fun.(type) {
+			case *ast.SelectorExpr:
+				nm = f.Sel.Name
+			case *ast.Ident:
+				nm = f.Name
+			}
+			for _, w := range names {
+				if nm == w {
+					found = true
+				}
+			}
+		}
+		return true
+	})
+	return found
+}
+
+func terminates(stmts []ast.Stmt) bool {
+	if len(stmts) == 0 {
+		return false
+	}
+	switch s := stmts[len(stmts)-1].(type) {
+	case *ast.ReturnStmt:
+		return true
+	case *ast.BlockStmt:
+		return terminates(s.List)
+	case *ast.IfStmt:
+		if s.Else == nil {
+			return false
+		}
+		eb, ok := s.Else.(*ast.BlockStmt)
+		if !ok {
+			return terminates([]ast.Stmt{s.Else}) && terminates(s.Body.List)
+		}
+		return terminates(s.Body.List) && terminates(eb.List)
+	}
+	return false
+}
+
+func isNilCheck(e ast.Expr, name string) bool {
+	be, ok := e.(*ast.BinaryExpr)
+	if !ok || be.Op != token.NEQ {
+		return false
+	}
+	x, ok1 := be.X.(*ast.Ident)
+	y, ok2 := be.Y.(*ast.Ident)
+	return ok1 && ok2 && x.Name == name && y.Name == "nil"
+}
+
+// auditGuard: every path through s either returns or passes `if err := …LogRequest(…); err != nil { …return }`.
+func auditGuard(s ast.Stmt, logName string) bool {
+	switch x := s.(type) {
+	case *ast.IfStmt:
+		if x.Init != nil && x.Else == nil && callsName(x.Init, logName) && isNilCheck(x.Cond, "err") && terminates(x.Body.List) {
+			return true
+		}
+		if x.Else != nil {
+			eb, ok := x.Else.(*ast.BlockStmt)
+			if ok {
+				return (auditGuardBlock(x.Body.List, logName) || terminates(x.Body.List)) &&
+					(auditGuardBlock(eb.List, logName) || terminates(eb.List))
+			}
+		}
+		return false
+	case *ast.BlockStmt:
+		return auditGuardBlock(x.List, logName)
+	case *ast.SwitchStmt:
+		hasDefault := false
+		for _, cl := range x.Body.List {
+			cc := cl.(*ast.CaseClause)
+			if cc.List == nil {
+				hasDefault = true
+			}
+			if !(auditGuardBlock(cc.Body, logName) || terminates(cc.Body)) {
+				return false
+			}
+		}
+		return hasDefault
+	}
+	return false
+}
+
+func auditGuardBlock(stmts []ast.Stmt, logName string) bool {
+	for _, s := range stmts {
+		if auditGuard(s, logName) {
+			return true
+		}
+	}
+	return false
+}
+
+// hasGoto reports a goto located BEFORE the first routing statement: only such a jump could bypass the guards
+// (Go forbids jumping backwards over declarations or into blocks; later forward gotos cannot reach a point
+// before the routing call).
+func skeleton(fd *ast.FuncDecl) (rows [][]string, hasGoto bool) {
+	firstRoute := token.Pos(-1)
+	for _, st := range fd.Body.List {
+		if callsName(st, "doRoutingIfApproved", "doRouting", "Route") {
+			firstRoute = st.Pos()
+			break
+		}
+	}
+	ast.Inspect(fd.Body, func(n ast.Node) bool {
+		switch x := n.(type) {
+		case *ast.BranchStmt:
+			if x.Tok == token.GOTO && (firstRoute < 0 || x.Pos() < firstRoute) {
+				hasGoto = true
+			}
+		case *ast.LabeledStmt:
+			if firstRoute < 0 || x.Pos() <= firstRoute {
+				hasGoto = true
+			}
+		}
+		return true
+	})
+	for _, st := range fd.Body.List {
+		var tags []string
+		if callsName(st, "CheckToken") {
+			tags = append(tags, "CheckToken")
+		}
+		if callsName(st, "UseToken") {
+			tags = append(tags, "UseToken")
+		}
+		if ifs, ok := st.(*ast.IfStmt); ok && isNilCheck(ifs.Cond, "ctErr") && ifs.Else == nil && terminates(ifs.Body.List) {
+			tags = append(tags, "CtErrGuard")
+		} else if auditGuard(st, "LogRequest") {
+			tags = append(tags, "AuditGuard")
+		}
+		if callsName(st, "doRoutingIfApproved", "doRouting", "Route") {
+			tags = append(tags, "Route")
+		}
+		if len(tags) > 0 {
+			rows = append(rows, tags)
+		}
+	}
+	return rows, hasGoto
+}
+
+func methodDecl(f *ast.File, name string) *ast.FuncDecl {
+	for _, d := range f.Decls {
+		if fd, ok := d.(*ast.FuncDecl); ok && fd.Name.Name == name && fd.Recv != nil {
+			return fd
+		}
+	}
+	die("method %s not found", name)
+	return nil
+}
+
+func genRequestSkeleton(repo, out string) {
+	_, f := parse(filepath.Join(repo, "internal/vault/request_handling.go"))
+	var b strings.Builder
+	b.WriteString(header)
+	b.WriteString("/-! Ordered tags of the top-level statements of the request pipeline functions (see tools/extract). -/\n")
+	b.WriteString("namespace Obao.Gen.RequestSkeleton\n\n")
+	for _, fn := range []string{"handleRequest", "handleLoginRequest"} {
+		rows, hasGoto := skeleton(methodDecl(f, fn))
+		b.WriteString("def " + fn + " : List (List String) := [\n")
+		for i, r := range rows {
+			q := make([]string, len(r))
+			for j, t := range r {
+				q[j] = strconv.Quote(t)
+			}
+			sep := ","
+			if i == len(rows)-1 {
+				sep = ""
+			}
+			b.WriteString("  [" + strings.Join(q, ", ") + "]" + sep + "\n")
+		}
+		b.WriteString("]\n")
+		b.WriteString(fmt.Sprintf("def %sGotoBeforeRoute : Bool := %v\n\n", fn, hasGoto))
+	}
+	// handleCancelableRequest: the response audit guard: `if auditErr := …LogResponse(…); auditErr != nil { … return nil, ErrInternalError }`
+	hc := methodDecl(f, "handleCancelableRequest")
+	respGuard := false
+	respGuardBare := false
+	ast.Inspect(hc.Body, func(n ast.Node) bool {
+		ifs, ok := n.(*ast.IfStmt)
+		if !ok || ifs.Init == nil || !callsName(ifs.Init, "LogResponse") {
+			return true
+		}
+		if terminates(ifs.Body.List) {
+			respGuard = true
+			ret := ifs.Body.List[len(ifs.Body.List)-1].(*ast.ReturnStmt)
+			if len(ret.Results) == 2 {
+				a, ok1 := ret.Results[0].(*ast.Ident)
+				bb, ok2 := ret.Results[1].(*ast.Ident)
+				if ok1 && ok2 && a.Name == "nil" && bb.Name == "ErrInternalError" {
+					respGuardBare = true
+				}
+			}
+		}
+		return true
+	})
+	b.WriteString(fmt.Sprintf("/-- handleCancelableRequest: a failing LogResponse returns, and returns the bare (nil, ErrInternalError) -/\ndef logResponseGuardReturns : Bool := %v\ndef logResponseGuardBareError : Bool := %v\n\n", respGuard, respGuardBare))
+	b.WriteString("end Obao.Gen.RequestSkeleton\n")
+	write(out, "RequestSkeleton.lean", b.String())
+}
+
 func main() {
 	if len(os.Args) != 3 {
 		die("usage: extract <repo> <outdir>")
@@ -409,4 +625,5 @@ func main() {
 	genShamir(repo, out)
 	genAclTables(repo, out)
 	genTokenTables(repo, out)
+	genRequestSkeleton(repo, out)
 }
